@@ -7,3 +7,8 @@ Definition re_search_ast (r : re) (v : pyval) : PyLib.res :=
   | VStr s => match search (map Z.to_N s) r with Some _ => Normal (VBool true) | None => Normal VNone end
   | _ => Exc TypeError
   end.
+Definition re_match_ast (r : re) (v : pyval) : PyLib.res :=
+  match v with
+  | VStr s => match match_start (map Z.to_N s) r with Some _ => Normal (VBool true) | None => Normal VNone end
+  | _ => Exc TypeError
+  end.
